@@ -255,6 +255,38 @@ static void do_bcsr_b(Cur& c, std::ostream& o)
     o << "BAD-OP";
 }
 
+// ---------------------------------------------------------------------------------------------------------------
+// double-precision conformance (supporting evidence for the sqrt clauses): `csrd IT frob|rownorm2 M`, the values of M
+// are dyadic rationals that are exactly representable; output "D n <hex doubles>"
+template<typename IT_>
+static void do_csrd(Cur& c, std::ostream& o)
+{
+  typedef SparseMatrixCSR<double, IT_> Mat;
+  std::string op = c.str();
+  Index rows = c.idx(), cols = c.idx();
+  NV rp = c.idxlist(), ci = c.idxlist(); QV val = qlist(c);
+  if(val.empty()) { o << "BAD-OP"; return; }
+  DenseVector<double, IT_> vv(Index(val.size()));
+  for(Index i(0); i < Index(val.size()); ++i) vv(i, double(val[i]));
+  auto vci = mk_ivec<IT_>(ci); auto vrp = mk_ivec<IT_>(rp);
+  Mat a(rows, cols, vci, vv, vrp);
+  char buf[64];
+  if(op == "frob")
+  {
+    std::snprintf(buf, sizeof(buf), "%a", a.norm_frobenius());
+    o << "D 1 " << buf;
+  }
+  else if(op == "rownorm2")
+  {
+    DenseVector<double, IT_> r(a.rows(), 777.0);
+    a.row_norm2(r);
+    o << "D " << r.size();
+    for(Index i(0); i < r.size(); ++i) { std::snprintf(buf, sizeof(buf), "%a", r(i)); o << " " << buf; }
+  }
+  else
+    o << "BAD-OP";
+}
+
 template<typename IT_>
 static void do_bcsr(Cur& c, std::ostream& o)
 {
@@ -277,6 +309,7 @@ static void handle(const verif::Tokens& tk, std::ostream& o)
   if(it != 32 && it != 64) { o << "BAD-OP"; return; }
   if(fmt == "csr") { if(it == 32) do_csr<std::uint32_t>(c, o); else do_csr<std::uint64_t>(c, o); }
   else if(fmt == "bcsr") { if(it == 32) do_bcsr<std::uint32_t>(c, o); else do_bcsr<std::uint64_t>(c, o); }
+  else if(fmt == "csrd") { if(it == 32) do_csrd<std::uint32_t>(c, o); else do_csrd<std::uint64_t>(c, o); }
   else o << "BAD-OP";
 }
 
